@@ -334,6 +334,9 @@ func runC03(p *Prog, r *Report, tier string) {
 	checkInfoElementImmutable(p, r, "R-OWNER.info-element")
 	checkSpecifierFreshness(p, r, "R-EXACT.field-specifier")
 	checkRecordLoopExits(p, r, "R-EXACT.record-loop")
+	// a field is "taken from its full encoded width" only if the reader interprets the variable-length prefix like the
+	// writer does (C15's prefix rule: threshold 255, 1 / 3 prefix bytes, in all five sites)
+	prefixSites(p, r, "R-EXACT.prefix")
 	// (7) the decoded set length bounds the set body
 	var hdrDecode *ssa.Call
 	eachInstr(dp, func(in ssa.Instruction) {
